@@ -630,6 +630,9 @@ enum FK {
     MpAfi,
     /// n >= 7 extra labels without bottom-of-stack bit in front of the first NLRI's label (VPN families)
     MpLabels(u8),
+    /// the inner per-attribute fault applied to the *later* copy that a `Dup` fault of the same
+    /// attribute code inserted (no effect when the list has no such `Dup`)
+    OnDup(Box<FK>),
 }
 
 #[derive(Clone, Debug, PartialEq)]
@@ -671,7 +674,21 @@ impl Fault {
             FK::MpNlriBad => "mp-nlri",
             FK::MpAfi => "mp-afi",
             FK::MpLabels(_) => "mp-labels",
+            FK::OnDup(sub) => match **sub {
+                FK::Flags(_) => "dup2-flags",
+                FK::Resize(_, "len-zero") => "dup2-len-zero",
+                FK::Resize(_, "len-aswidth") => "dup2-len-aswidth",
+                FK::Resize(..) => "dup2-len",
+                FK::Value(_) => "dup2-value",
+                FK::SegType(_) | FK::SegOverrun | FK::SegUnderrun | FK::SegZero(_) => "dup2-seg",
+                FK::LenField(_) => "dup2-lenfield",
+                FK::ExtLenRaw => "dup2-extlen-raw",
+                _ => "dup2-benign",
+            },
         }
+    }
+    fn on_first_copy(&self) -> bool {
+        !matches!(self.k, FK::OnDup(_) | FK::Dup(..))
     }
 }
 
@@ -683,6 +700,7 @@ struct Item {
     ext: bool,
     len_override: Option<u32>,
     raw_ext_flip: bool,
+    is_dup: bool,
 }
 
 fn filler(n: usize, seed: u8) -> Vec<u8> {
@@ -714,6 +732,86 @@ fn seg_offsets(val: &[u8], w: usize) -> Vec<usize> {
     o
 }
 
+/// apply one per-attribute fault to one copy of the attribute
+fn mutate(it: &mut Item, code: u8, k: &FK, t: &Tmpl) {
+    match k {
+        FK::Flags(x) => it.flags ^= x & (F_OPT | F_TRANS),
+        FK::Partial => it.flags |= F_PARTIAL,
+        FK::LowBits(b) => it.flags |= b & 0x0f,
+        FK::ExtLen => it.ext = true,
+        FK::ExtLenRaw => it.raw_ext_flip = true,
+        FK::Resize(n, _) => {
+            if *n <= it.val.len() {
+                it.val.truncate(*n);
+            } else {
+                let extra = filler(*n - it.val.len(), code);
+                it.val.extend_from_slice(&extra);
+            }
+        }
+        FK::LenField(d) => {
+            let max = if it.ext { 65535 } else { 255 };
+            let nl = (it.val.len() as i64 + *d as i64).clamp(0, max) as u32;
+            it.len_override = Some(nl);
+        }
+        FK::Value(v) => {
+            if !it.val.is_empty() {
+                it.val[0] = *v;
+            }
+        }
+        FK::SegType(ty) => {
+            let w = seg_width(code, &t.cfg);
+            let offs = seg_offsets(&it.val, w);
+            if let Some(o) = offs.last() {
+                it.val[*o] = *ty;
+            }
+        }
+        FK::SegOverrun => {
+            let w = seg_width(code, &t.cfg);
+            let offs = seg_offsets(&it.val, w);
+            if let Some(o) = offs.last() {
+                it.val[*o + 1] = it.val[*o + 1].saturating_add(1);
+            }
+        }
+        FK::SegUnderrun => it.val.push(2),
+        FK::SegZero(front) => {
+            if *front {
+                it.val.splice(0..0, [2u8, 0u8]);
+            } else {
+                it.val.extend_from_slice(&[2, 0]);
+            }
+        }
+        FK::MpNhLen(n) => {
+            if it.val.len() > 3 {
+                it.val[3] = *n;
+            }
+        }
+        FK::MpShort(n) => it.val.truncate(*n),
+        FK::MpNlriBad => {
+            let start = if code == MP_REACH { 4 + it.val.get(3).copied().unwrap_or(0) as usize + 1 } else { 3 };
+            let start = start + if t.cfg.addpath { 4 } else { 0 };
+            if start < it.val.len() {
+                it.val[start] = 0xff;
+            }
+        }
+        FK::MpAfi => {
+            if it.val.len() > 1 {
+                it.val[0] = 0;
+                it.val[1] = 0xff;
+            }
+        }
+        FK::MpLabels(n) => {
+            let start = if code == MP_REACH { 4 + it.val.get(3).copied().unwrap_or(0) as usize + 1 } else { 3 };
+            let start = start + if t.cfg.addpath { 4 } else { 0 };
+            if start < it.val.len() {
+                it.val[start] = 0xff;
+                let extra: Vec<u8> = (0..*n).flat_map(|i| [0u8, i, 0x10]).collect();
+                it.val.splice(start + 1..start + 1, extra);
+            }
+        }
+        _ => {}
+    }
+}
+
 struct Built {
     bytes: Vec<u8>,
 }
@@ -722,88 +820,15 @@ fn build(t: &Tmpl, faults: &[Fault]) -> Built {
     let mut items: Vec<Item> = t
         .attrs
         .iter()
-        .map(|a| Item { code: a.code, flags: a.flags, val: a.val.clone(), ext: a.val.len() > 255, len_override: None, raw_ext_flip: false })
+        .map(|a| Item { code: a.code, flags: a.flags, val: a.val.clone(), ext: a.val.len() > 255, len_override: None, raw_ext_flip: false, is_dup: false })
         .collect();
-    // per-attribute mutations first, structural ones afterwards
+    // per-attribute mutations of the first copy, then structural ones, then the later copies
     for f in faults {
-        let Some(ix) = items.iter().position(|i| i.code == f.code) else { continue };
-        let it = &mut items[ix];
-        match &f.k {
-            FK::Flags(x) => it.flags ^= x & (F_OPT | F_TRANS),
-            FK::Partial => it.flags |= F_PARTIAL,
-            FK::LowBits(b) => it.flags |= b & 0x0f,
-            FK::ExtLen => it.ext = true,
-            FK::ExtLenRaw => it.raw_ext_flip = true,
-            FK::Resize(n, _) => {
-                if *n <= it.val.len() {
-                    it.val.truncate(*n);
-                } else {
-                    let extra = filler(*n - it.val.len(), f.code);
-                    it.val.extend_from_slice(&extra);
-                }
-            }
-            FK::LenField(d) => {
-                let max = if it.ext { 65535 } else { 255 };
-                let nl = (it.val.len() as i64 + *d as i64).clamp(0, max) as u32;
-                it.len_override = Some(nl);
-            }
-            FK::Value(v) => {
-                if !it.val.is_empty() {
-                    it.val[0] = *v;
-                }
-            }
-            FK::SegType(ty) => {
-                let w = seg_width(f.code, &t.cfg);
-                let offs = seg_offsets(&it.val, w);
-                if let Some(o) = offs.last() {
-                    it.val[*o] = *ty;
-                }
-            }
-            FK::SegOverrun => {
-                let w = seg_width(f.code, &t.cfg);
-                let offs = seg_offsets(&it.val, w);
-                if let Some(o) = offs.last() {
-                    it.val[*o + 1] = it.val[*o + 1].saturating_add(1);
-                }
-            }
-            FK::SegUnderrun => it.val.push(2),
-            FK::SegZero(front) => {
-                if *front {
-                    it.val.splice(0..0, [2u8, 0u8]);
-                } else {
-                    it.val.extend_from_slice(&[2, 0]);
-                }
-            }
-            FK::MpNhLen(n) => {
-                if it.val.len() > 3 {
-                    it.val[3] = *n;
-                }
-            }
-            FK::MpShort(n) => it.val.truncate(*n),
-            FK::MpNlriBad => {
-                let start = if f.code == MP_REACH { 4 + it.val.get(3).copied().unwrap_or(0) as usize + 1 } else { 3 };
-                let start = start + if t.cfg.addpath { 4 } else { 0 };
-                if start < it.val.len() {
-                    it.val[start] = 0xff;
-                }
-            }
-            FK::MpAfi => {
-                if it.val.len() > 1 {
-                    it.val[0] = 0;
-                    it.val[1] = 0xff;
-                }
-            }
-            FK::MpLabels(n) => {
-                let start = if f.code == MP_REACH { 4 + it.val.get(3).copied().unwrap_or(0) as usize + 1 } else { 3 };
-                let start = start + if t.cfg.addpath { 4 } else { 0 };
-                if start < it.val.len() {
-                    it.val[start] = 0xff;
-                    let extra: Vec<u8> = (0..*n).flat_map(|i| [0u8, i, 0x10]).collect();
-                    it.val.splice(start + 1..start + 1, extra);
-                }
-            }
-            _ => {}
+        if matches!(f.k, FK::OnDup(_)) {
+            continue;
         }
+        let Some(ix) = items.iter().position(|i| i.code == f.code) else { continue };
+        mutate(&mut items[ix], f.code, &f.k, t);
     }
     for f in faults {
         match &f.k {
@@ -823,6 +848,7 @@ fn build(t: &Tmpl, faults: &[Fault]) -> Built {
                         ext: orig.val.len() > 255,
                         len_override: None,
                         raw_ext_flip: false,
+                        is_dup: true,
                     };
                     let at = ix + 1 + (*pos as usize % (items.len() - ix));
                     items.insert(at, copy);
@@ -830,9 +856,16 @@ fn build(t: &Tmpl, faults: &[Fault]) -> Built {
             }
             FK::UnknownWk(flags, len, pos) => {
                 let at = *pos as usize % (items.len() + 1);
-                items.insert(at, Item { code: f.code, flags: *flags, val: filler(*len as usize, 3), ext: false, len_override: None, raw_ext_flip: false });
+                items.insert(at, Item { code: f.code, flags: *flags, val: filler(*len as usize, 3), ext: false, len_override: None, raw_ext_flip: false, is_dup: false });
             }
             _ => {}
+        }
+    }
+    for f in faults {
+        if let FK::OnDup(sub) = &f.k
+            && let Some(ix) = items.iter().position(|i| i.code == f.code && i.is_dup)
+        {
+            mutate(&mut items[ix], f.code, sub, t);
         }
     }
     let mut block = Vec::new();
@@ -982,7 +1015,10 @@ fn choose_faults(t: &Tmpl, rng: &mut Rng, only: Option<&str>) -> Vec<Fault> {
     let mut msg_level: BTreeSet<&'static str> = BTreeSet::new();
     let known: Vec<u8> = t.attrs.iter().map(|a| a.code).filter(|c| spec_flags(*c).is_some()).collect();
     let all: Vec<u8> = t.attrs.iter().map(|a| a.code).collect();
-    let kinds: [(&str, u32); 22] = [
+    let kinds: [(&str, u32); 25] = [
+        ("dup+first", 7),
+        ("dup+later", 4),
+        ("dup+both", 3),
         ("flags", 16),
         ("partial", 2),
         ("lowbits", 2),
@@ -1024,6 +1060,7 @@ fn choose_faults(t: &Tmpl, rng: &mut Rng, only: Option<&str>) -> Vec<Fault> {
         {
             continue;
         }
+        let mut extra: Vec<Fault> = Vec::new();
         let free = |cands: &[u8], used: &BTreeSet<u8>| -> Vec<u8> { cands.iter().copied().filter(|c| !used.contains(c)).collect() };
         let f: Option<Fault> = match kind {
             "flags" => {
@@ -1124,6 +1161,26 @@ fn choose_faults(t: &Tmpl, rng: &mut Rng, only: Option<&str>) -> Vec<Fault> {
                 let c = free(&all, &used);
                 (!c.is_empty()).then(|| Fault { code: *rng.pick(&c), k: FK::Dup(rng.next_u32(), rng.below(16)) })
             }
+            "dup+first" | "dup+later" | "dup+both" => {
+                // a duplicate together with a fault on the first copy, on the later copy, or on both
+                let c: Vec<u8> = free(&all, &used).into_iter().filter(|c| *c != MP_REACH && *c != MP_UNREACH).collect();
+                if c.is_empty() {
+                    None
+                } else {
+                    let code = *rng.pick(&c);
+                    if kind != "dup+later"
+                        && let Some(k) = attr_fault(t, code, rng)
+                    {
+                        extra.push(Fault { code, k });
+                    }
+                    if kind != "dup+first"
+                        && let Some(k) = attr_fault(t, code, rng)
+                    {
+                        extra.push(Fault { code, k: FK::OnDup(Box::new(k)) });
+                    }
+                    Some(Fault { code, k: FK::Dup(rng.next_u32(), rng.below(16)) })
+                }
+            }
             "omit" => {
                 let c = free(&[ORIGIN, AS_PATH, NEXT_HOP].into_iter().filter(|c| present(t, *c)).collect::<Vec<_>>(), &used);
                 (announces(t) && !c.is_empty()).then(|| Fault { code: *rng.pick(&c), k: FK::Omit })
@@ -1167,9 +1224,60 @@ fn choose_faults(t: &Tmpl, rng: &mut Rng, only: Option<&str>) -> Vec<Fault> {
                 msg_level.insert(f.kind());
             }
             out.push(f);
+            out.append(&mut extra);
         }
     }
     out
+}
+
+/// one per-attribute fault applicable to attribute `code` of the template (used for the
+/// duplicate combinations, where first and later copy are faulted independently)
+fn attr_fault(t: &Tmpl, code: u8, rng: &mut Rng) -> Option<FK> {
+    let known = spec_flags(code).is_some();
+    let mut cands: Vec<(u32, u8)> = vec![(1, 4), (1, 5), (1, 6)];
+    if known {
+        cands.push((6, 0));
+    }
+    if known && !bad_sizes(t, code).is_empty() {
+        cands.push((6, 1));
+    }
+    if code == ORIGIN {
+        cands.push((3, 2));
+    }
+    if code == AS_PATH || code == AS4_PATH {
+        cands.push((4, 3));
+    }
+    let total: u32 = cands.iter().map(|c| c.0).sum();
+    let mut r = rng.below(total as u64) as u32;
+    let mut pick = cands[0].1;
+    for (w, k) in &cands {
+        if r < *w {
+            pick = *k;
+            break;
+        }
+        r -= w;
+    }
+    Some(match pick {
+        0 => FK::Flags(*rng.pick(&[F_OPT, F_TRANS, F_OPT | F_TRANS])),
+        1 => {
+            let sizes = bad_sizes(t, code);
+            let (n, name) = *rng.pick(&sizes);
+            FK::Resize(n, name)
+        }
+        2 => FK::Value(rng.range(3, 255) as u8),
+        3 => {
+            let empty = val_of(t, code).is_empty();
+            match rng.below(4) {
+                0 if !empty => FK::SegType(*rng.pick(&[0u8, 5, 0x42, 0xff])),
+                1 if !empty => FK::SegOverrun,
+                2 => FK::SegZero(rng.bool()),
+                _ => FK::SegUnderrun,
+            }
+        }
+        4 => FK::LowBits(rng.range(1, 15) as u8),
+        5 => FK::ExtLen,
+        _ => FK::LenField(*rng.pick(&[-2, -1, 1, 2, 5])),
+    })
 }
 
 // ---------------------------------------------------------------- classification (the reference RFC 7606 classes)
@@ -1184,6 +1292,9 @@ enum Class {
     MustWithdraw,
     /// duplicate of a non-MP attribute: kept with the first occurrence, or withdrawn
     Dup,
+    /// fault on a later copy of a duplicated attribute: RFC 7606 §3.g discards every occurrence but
+    /// the first, so the fault is void -- the first copy alone decides (kept with the first, or withdrawn)
+    LaterCopy,
 }
 
 struct Record {
@@ -1265,6 +1376,17 @@ fn classify(t: &Tmpl, faults: &[Fault]) -> Record {
                     Class::Discardable
                 } else {
                     Class::Dup
+                }
+            }
+            FK::OnDup(sub) => {
+                let has_dup = faults.iter().any(|g| g.code == f.code && matches!(g.k, FK::Dup(..)));
+                if !has_dup {
+                    Class::Benign // no later copy in this list: the fault has no effect
+                } else {
+                    if matches!(**sub, FK::LenField(_) | FK::ExtLenRaw) {
+                        r.framing_touched = true;
+                    }
+                    Class::LaterCopy
                 }
             }
             FK::Omit => Class::MustWithdraw,
@@ -1510,6 +1632,24 @@ fn evaluate(t: &Tmpl, bl: &Baseline, faults: &[Fault]) -> Eval {
     for u in &rec.unjudged {
         ev.notes.push(format!("unjudged:{}", u));
     }
+    // which duplicate combinations this case carries (evidence counters)
+    for (f, _) in faults.iter().zip(rec.classes.iter()).filter(|(_, c)| **c == Class::Dup) {
+        let first = faults.iter().zip(rec.classes.iter()).find(|(g, _)| g.code == f.code && g.on_first_copy()).map(|(_, c)| *c);
+        let later = faults.iter().zip(rec.classes.iter()).any(|(g, c)| g.code == f.code && *c == Class::LaterCopy);
+        ev.notes.push(
+            match (first, later) {
+                (Some(Class::MustWithdraw), false) => "combo:dup+first-mustwithdraw",
+                (Some(Class::Discardable), false) => "combo:dup+first-discardable",
+                (Some(Class::MustWithdraw), true) => "combo:dup+both:first-mustwithdraw",
+                (Some(Class::Discardable), true) => "combo:dup+both:first-discardable",
+                (Some(_), true) => "combo:dup+both:first-benign",
+                (Some(_), false) => "combo:dup+first-benign",
+                (None, true) => "combo:dup+later",
+                (None, false) => "combo:dup-only",
+            }
+            .into(),
+        );
+    }
     if !rec.framing_touched && w != Walk::Ok {
         ev.notes.push("harness:walk-disagrees".into());
         return ev;
@@ -1622,6 +1762,18 @@ fn evaluate(t: &Tmpl, bl: &Baseline, faults: &[Fault]) -> Eval {
                             }
                         }
                         Class::Dup => {
+                            // first copy itself faulty and discardable: the attribute must be gone
+                            // altogether (judged by the Discardable arm), a later copy is never believed
+                            let first_discardable = faults.iter().zip(rec.classes.iter()).any(|(g, gc)| g.code == f.code && g.on_first_copy() && *gc == Class::Discardable);
+                            if first_discardable {
+                                if !attrs.iter().any(|a| a.code() == f.code) {
+                                    ev.notes.push("clause:dup-first-discardable:kept-without-attr".into());
+                                }
+                                continue;
+                            }
+                            if faults.iter().zip(rec.classes.iter()).any(|(g, gc)| g.code == f.code && *gc == Class::LaterCopy) {
+                                ev.notes.push("clause:dup-later-faulty:kept".into());
+                            }
                             let n = attrs.iter().filter(|a| a.code() == f.code).count();
                             if n > 1 {
                                 ev.findings.push(Finding { clause: "discard".into(), code: None, text: format!("prefix {} kept with {} copies of attribute {}", p, n, f.code) });
@@ -1744,7 +1896,14 @@ fn signature(clause: &str, code: Option<u8>, faults: &[Fault]) -> String {
     } else if fs.is_empty() {
         "0".into()
     } else {
-        fs.iter().map(|f| f.0.to_string()).collect::<Vec<_>>().join("+")
+        // a duplicate and the faults on its copies share one attribute code: print it once
+        let mut cs: Vec<u8> = Vec::new();
+        for f in &fs {
+            if !cs.contains(&f.0) {
+                cs.push(f.0);
+            }
+        }
+        cs.iter().map(|c| c.to_string()).collect::<Vec<_>>().join("+")
     };
     let kinds = if fs.is_empty() { "none".into() } else { fs.iter().map(|f| f.1).collect::<Vec<_>>().join("+") };
     format!("C05/{}/{}/{}", clause, codes, kinds)
